@@ -5,5 +5,8 @@ CONSTANTS
   InitLen = 4
   Fixed = FALSE
   Ids <- IdsClasses
+  ServeFails = TRUE
+  DeferUnreport = TRUE
+  LockedAdd = TRUE
 INVARIANTS LockNotLeaked NoWedge
 CHECK_DEADLOCK FALSE
